@@ -30,6 +30,7 @@ def obligations(tier):
     obls.append(init_qq_obl())      # real _soxr_init for the quick recipe: cubic stage inside its envelope
     obls.append(plan_obl(3))      # the halving loop of _soxr_init terminates for every finite ratio
     obls += dft_set(tier)      # the DFT stage: block bookkeeping and phase carry of the real dft_stage_fn
+    obls += dft_bigfifo_set()      # ... with a very full input FIFO (extreme up-sampling ratios)
     obls += planenv.obls(tier)      # ENV-(b): plans of the real _soxr_init inside the envelope the kernel obligations assume (enumeration, labelled)
     obls += [kern_obl(0, hn=8, engine='cr32s.c'), kern_obl(1, ntaps=4, engine='cr32s.c')]      # SSE kernels (shufps/movhlps modelled as exact lane permutations)
     if tier == 'thorough':
